@@ -51,6 +51,7 @@ func TestMain(m *testing.M) { vt.Main(m) }
 type sink struct {
 	mu      sync.Mutex
 	outcome error
+	carry   string
 	calls   int
 	trees   []any
 	// hook, when set, replaces the scripted behaviour (concurrent bursts: the
@@ -66,7 +67,14 @@ func (s *sink) setHook(h func(v any) error) {
 
 func (s *sink) reset(outcome error) {
 	s.mu.Lock()
-	s.outcome, s.calls, s.trees = outcome, 0, nil
+	s.outcome, s.calls, s.trees, s.carry = outcome, 0, nil, ""
+	s.mu.Unlock()
+}
+
+// resetCarry: like reset, and the error names (part of) the received payload as the data that failed.
+func (s *sink) resetCarry(outcome error, carry string) {
+	s.mu.Lock()
+	s.outcome, s.calls, s.trees, s.carry = outcome, 0, nil, carry
 	s.mu.Unlock()
 }
 
@@ -82,7 +90,7 @@ func (s *sink) take(v any) error {
 	defer s.mu.Unlock()
 	s.calls++
 	s.trees = append(s.trees, t)
-	return s.outcome
+	return carried(s.outcome, v, s.carry)
 }
 
 func (s *sink) snapshot() (int, []any) {
